@@ -100,6 +100,9 @@ macro_rules! msg_chunk {
             bytes[7] = (sz >> 24) as u8;
             let mut channel = established(Role::Server, $policy, $mode);
             let r = channel.verify_and_remove_security(&bytes); // must not panic
+            if $size != $n {
+                assert!(r.is_err(), "a chunk whose length differs from its declared size (bytes removed or appended) is rejected");
+            }
             kani::cover!(r.is_err(), "rejected");
             core::mem::forget((r, channel));
         }
